@@ -91,3 +91,52 @@ theorem world_commit_succeeds_on_diff (H : HashFn) (w : W.World) (msg : Bytes) (
   simp only [hvn, Bool.not_true, Bool.and_false, Bool.false_eq_true, if_false, hhead]
 
 end C07
+
+namespace C07
+
+open TreeBuild IndexOps Cmds
+
+/-- **The first commit**: in a repository without branches, with a non-empty staging area, a configured identity and identity and
+    message in C12's domain, `commit` ends `ok` (whole-repository model, a state meeting `W.Conn`) -/
+theorem world_first_commit_succeeds (H : HashFn) (w : W.World) (msg : Bytes) (tz : Int) (ts : List Int) (l : W.Loaded)
+    (hconn : W.Conn H w) (hinit : w.inited = true) (hl : W.load H w = some l)
+    (hnb : w.heads.isEmpty = true) (hh : l.headCommit = none) (hne : l.idx.isEmpty = false)
+    (hu : Config.isUserSet l.loc l.glob = true) (hdom : W.CommitDomain w msg tz (W.clock ts 0))
+    (hhead : w.head.isNone = false) (hvn : Refs.validName l.ref = true) :
+    (W.run H w ⟨.commit msg, tz, ts⟩).2 = .ok none := by
+  obtain ⟨hloc, hglob⟩ := W.load_cfg H w l hl
+  have hparse := W.format_parses H w l msg tz (W.clock ts 0) l.loc l.glob hconn hloc hglob hdom
+  have hp : (Commit.parse (commitData H (W.commitIn w l none msg tz (W.clock ts 0)) (Config.userField l.loc l.glob (asc "name"))
+      (Config.userField l.loc l.glob (asc "email")))).isNone = false := by
+    have : commitData H (W.commitIn w l none msg tz (W.clock ts 0)) (Config.userField l.loc l.glob (asc "name"))
+        (Config.userField l.loc l.glob (asc "email")) =
+      Commit.format (writeTree H l.idx).id (W.aget w.heads l.ref)
+        ⟨Config.userField l.loc l.glob (asc "name"), Config.userField l.loc l.glob (asc "email"), W.clock ts 0, tz⟩
+        ⟨Config.userField l.loc l.glob (asc "name"), Config.userField l.loc l.glob (asc "email"), W.clock ts 0, tz⟩ msg := rfl
+    rw [this]
+    cases hx : Commit.parse (Commit.format (writeTree H l.idx).id (W.aget w.heads l.ref)
+        ⟨Config.userField l.loc l.glob (asc "name"), Config.userField l.loc l.glob (asc "email"), W.clock ts 0, tz⟩
+        ⟨Config.userField l.loc l.glob (asc "name"), Config.userField l.loc l.glob (asc "email"), W.clock ts 0, tz⟩ msg) with
+    | none => rw [hx] at hparse; cases hparse
+    | some _ => rfl
+  have hcc : ∃ id data, Cmds.commitCmd H (W.commitIn w l none msg tz (W.clock ts 0)) = .ok (id, data) := by
+    unfold Cmds.commitCmd
+    have h1 : (W.commitIn w l none msg tz (W.clock ts 0)).cfgLocal = w.cfgLocal := rfl
+    have h2 : (W.commitIn w l none msg tz (W.clock ts 0)).cfgGlobal = w.cfgGlobal := rfl
+    simp only [h1, h2, hloc, hglob]
+    unfold Cmds.commitWith
+    have h3 : (W.commitIn w l none msg tz (W.clock ts 0)).anyBranches = false := by simp [W.commitIn, hnb]
+    have h4 : (W.commitIn w l none msg tz (W.clock ts 0)).index = l.idx := rfl
+    simp only [hu, Bool.not_true, Bool.false_eq_true, if_false, h3, Bool.not_false, if_true, h4, hne]
+    unfold Cmds.commitMake
+    simp only [hp, Bool.false_eq_true, if_false]
+    exact ⟨_, _, rfl⟩
+  obtain ⟨id, data, hcc⟩ := hcc
+  unfold W.run
+  simp only [hinit, Bool.not_true, Bool.false_eq_true, if_false, W.pathArgs, List.all_nil, hl]
+  unfold W.commitCmd
+  simp only [hh, Option.isNone_none, if_true, hcc]
+  unfold W.commitWrite
+  simp only [hvn, Bool.not_true, Bool.and_false, Bool.false_eq_true, if_false, hhead]
+
+end C07
